@@ -166,6 +166,13 @@ def family(rng, g, other=None):
             j = (k + 1 + rng.randrange(g["n"] - 1)) % g["n"]
             h["adj"][k][j] = h["adj"][j][k] = (h["adj"][k][j] + 1) % 3
         fam += [h, gl.permuted(h, rng)]
+        # a look-alike that differs only by a non-integral bond order (single -> 1.5, code 3)
+        es = [(u, v) for u in range(g["n"]) for v in range(u + 1, g["n"]) if g["adj"][u][v] in (1, 2)]
+        if es:
+            u, v = rng.choice(es)
+            ar = {"n": g["n"], "lab": list(g["lab"]), "hc": list(g["hc"]), "adj": [list(r) for r in g["adj"]]}
+            ar["adj"][u][v] = ar["adj"][v][u] = 3
+            fam.append(ar)
     if other is not None:
         fam.append(other)
     rp = repaired(g, rng)
